@@ -41,10 +41,15 @@ func Send[T any](site string, ch chan<- T, v T) {
 
 // TimeSleep is time.Sleep followed by a scheduling point.
 func TimeSleep(d time.Duration) {
-	time.Sleep(d)
-	if cur.Load() != nil {
-		Yield("time.Sleep+")
+	s := cur.Load()
+	if s == nil {
+		time.Sleep(d)
+		return
 	}
+	s.sleepers.Add(1)
+	time.Sleep(d)
+	s.sleepers.Add(-1)
+	Yield("time.Sleep+")
 }
 
 // SelCase is one communication clause of a rewritten select statement.
